@@ -107,6 +107,28 @@ Theorem calc_blockdep_zero :
     (po_lut p = true -> ar_reserved_unused ar = 0 -> co_lut c = false -> calc_blockdep ar (Some p) c = Some 0).
 Proof. exact calc_blockdep_zero_cases. Qed.
 
+(* get_address_ranges (the per-tile bounding ranges handed to the conflict test and used by
+   calc_blockdep to classify overlap) over-approximates the feature map -- PARTIAL: only when tile 3
+   is not in use without tile 2 ... *)
+Theorem footprint_overapprox_partial :
+  forall fm y x c,
+    strides_ok fm ->
+    (fm_w fm > fm_w0 fm -> fm_h fm > fm_h1 fm -> fm_h fm > fm_h0 fm) ->
+    0 <= y < fm_h fm -> 0 <= x < fm_w fm -> 0 <= c < fm_d fm ->
+    covered_by fm y x c (get_address_ranges fm).
+Proof. exact footprint_overapprox_partial_lemma. Qed.
+
+(* ... and REFUTED without that hypothesis: a feature map using tiles 0, 1 and 3 has elements no
+   reported range contains (witness replayed on the real get_address_ranges by tools/checks/c04.py;
+   through the public API it yields a stream with an unseparated DMA/kernel hazard) *)
+Theorem footprint_overapprox_refuted :
+  exists fm y x c,
+    strides_ok fm /\ 0 <= y < fm_h fm /\ 0 <= x < fm_w fm /\ 0 <= c < fm_d fm /\
+    get_address fm (get_strides fm) y x c = 8192 /\
+    get_address_ranges fm = [Some (1, 0, 960); Some (1, 4096, 448); None; None] /\
+    ~ covered_by fm y x c (get_address_ranges fm).
+Proof. exact footprint_overapprox_refuted_lemma. Qed.
+
 (* D2, the validator run on every decoded stream.  If check_hazards accepts the events then
    (1) replaying the stream in the queue machine (every EOp issued to its queue with the exact
        footprint of Npu.op_footprint, KERNEL_WAIT / DMA_WAIT as waits, the accelerator's outstanding
@@ -152,5 +174,7 @@ Print Assumptions blockdep_sound.
 Print Assumptions blockdep_sound_concrete.
 Print Assumptions calc_blockdep_result.
 Print Assumptions calc_blockdep_zero.
+Print Assumptions footprint_overapprox_partial.
+Print Assumptions footprint_overapprox_refuted.
 Print Assumptions check_hazards_sound.
 Print Assumptions queue_simulation_sound.
